@@ -286,6 +286,199 @@ pub mod compaction {
 	}
 }
 
+/// Sorted-table access (C13 / C16): build a table file in memory from an entry list under a given
+/// format configuration, dump its physical layout, look up, and drive a cursor.
+pub mod sstable {
+	use std::collections::HashMap;
+	use std::ops::Bound;
+	use std::sync::{Arc, Mutex};
+
+	use crate::sstable::bloom::LevelDBBloomFilter;
+	use crate::sstable::block::BlockHandle;
+	use crate::sstable::table::{IndexType, Table, TableIterator, TableWriter};
+	use crate::{
+		user_range_to_internal_range, CompressionType, InternalKey, InternalKeyKind, LSMIterator, Options,
+	};
+
+	/// user key, seq, kind byte, timestamp, value
+	pub type Ent = (Vec<u8>, u64, u8, u64, Vec<u8>);
+	/// (block size, restart interval, index partition size, snappy?, bloom filter?)
+	pub type Cfg = (usize, usize, usize, bool, bool);
+
+	fn options(cfg: Cfg) -> Arc<Options> {
+		// one Options per configuration for the whole process (each `Options::new()` starts a clock thread)
+		static CACHE: Mutex<Option<HashMap<Cfg, Arc<Options>>>> = Mutex::new(None);
+		let mut g = CACHE.lock().unwrap();
+		let m = g.get_or_insert_with(HashMap::new);
+		Arc::clone(m.entry(cfg).or_insert_with(|| {
+			let mut o = Options::new();
+			o.block_size = cfg.0;
+			o.block_restart_interval = cfg.1;
+			o.index_partition_size = cfg.2;
+			o.compression_per_level =
+				vec![if cfg.3 { CompressionType::SnappyCompression } else { CompressionType::None }];
+			o.filter_policy = if cfg.4 { Some(Arc::new(LevelDBBloomFilter::new(10))) } else { None };
+			Arc::new(o)
+		}))
+	}
+
+	pub struct Tbl {
+		table: &'static Table,
+		pub bytes: Arc<Vec<u8>>,
+		cfg: Cfg,
+	}
+
+	static NEXT_ID: std::sync::atomic::AtomicU64 = std::sync::atomic::AtomicU64::new(1 << 40);
+
+	/// Writes `entries` (strictly ascending in internal-key order) with the real `TableWriter`.
+	pub fn build(entries: &[Ent], cfg: Cfg) -> std::result::Result<Tbl, String> {
+		let opts = options(cfg);
+		let id = NEXT_ID.fetch_add(1, std::sync::atomic::Ordering::Relaxed);
+		let mut buf = Vec::new();
+		{
+			let mut w = TableWriter::new(&mut buf, id, Arc::clone(&opts), 0);
+			for (k, seq, kind, ts, v) in entries {
+				w.add(InternalKey::new(k.clone(), *seq, InternalKeyKind::from(*kind), *ts), v)
+					.map_err(|e| e.to_string())?;
+			}
+			w.finish().map_err(|e| e.to_string())?;
+		}
+		open(buf, cfg)
+	}
+
+	/// Opens table bytes (possibly altered by the caller) with the real reader.
+	pub fn open(buf: Vec<u8>, cfg: Cfg) -> std::result::Result<Tbl, String> {
+		let opts = options(cfg);
+		let id = NEXT_ID.fetch_add(1, std::sync::atomic::Ordering::Relaxed);
+		let size = buf.len() as u64;
+		let bytes = Arc::new(buf);
+		let file: Arc<dyn crate::vfs::File> = Arc::new((*bytes).clone());
+		let table = Table::new(id, opts, file, size).map_err(|e| e.to_string())?;
+		// leaked on purpose: cursors borrow the table for 'static (harness processes are short-lived)
+		Ok(Tbl { table: Box::leak(Box::new(table)), bytes, cfg })
+	}
+
+	/// one data block as the index sees it: separator (user key, seq), entries (user key, seq), and the
+	/// entry indices at which the block's restart points sit
+	pub type BlockDump = ((Vec<u8>, u64), Vec<(Vec<u8>, u64)>, Vec<usize>);
+
+	impl Tbl {
+		pub fn cfg(&self) -> Cfg {
+			self.cfg
+		}
+
+		/// partitions → data blocks, read through the real index and block readers
+		pub fn layout(&self) -> std::result::Result<Vec<Vec<BlockDump>>, String> {
+			let IndexType::Partitioned(ref index) = self.table.index_block;
+			let mut parts = Vec::new();
+			for bh in index.blocks.iter() {
+				let pb = index.load_block(bh).map_err(|e| e.to_string())?;
+				let mut pit = pb.iter().map_err(|e| e.to_string())?;
+				pit.seek_to_first().map_err(|e| e.to_string())?;
+				let mut blocks = Vec::new();
+				while pit.is_valid() {
+					let sep = InternalKey::decode(pit.key_bytes());
+					let (handle, _) = BlockHandle::decode(pit.value_bytes()).map_err(|e| e.to_string())?;
+					let db = self.table.read_block(&handle).map_err(|e| e.to_string())?;
+					let mut it = db.iter().map_err(|e| e.to_string())?;
+					let restarts = it.verif_restart_offsets();
+					let mut ents = Vec::new();
+					let mut ridx = Vec::new();
+					it.seek_to_first().map_err(|e| e.to_string())?;
+					while it.is_valid() {
+						if restarts.contains(&it.verif_entry_offset()) {
+							ridx.push(ents.len());
+						}
+						let k = InternalKey::decode(it.key_bytes());
+						ents.push((k.user_key.clone(), k.seq_num()));
+						if !it.advance().map_err(|e| e.to_string())? {
+							break;
+						}
+					}
+					blocks.push(((sep.user_key.clone(), sep.seq_num()), ents, ridx));
+					if !pit.advance().map_err(|e| e.to_string())? {
+						break;
+					}
+				}
+				parts.push(blocks);
+			}
+			Ok(parts)
+		}
+
+		/// `Table::get` for (user key, snapshot seq): the entry found, as (user key, seq, kind, value)
+		#[allow(clippy::type_complexity)]
+		pub fn get(&self, uk: &[u8], seq: u64) -> std::result::Result<Option<(Vec<u8>, u64, u8, Vec<u8>)>, String> {
+			let k = InternalKey::new(uk.to_vec(), seq, InternalKeyKind::Max, crate::INTERNAL_KEY_TIMESTAMP_MAX);
+			match self.table.get(&k) {
+				Ok(Some((ik, v))) => Ok(Some((ik.user_key.clone(), ik.seq_num(), ik.kind() as u8, v))),
+				Ok(None) => Ok(None),
+				Err(e) => Err(e.to_string()),
+			}
+		}
+
+		pub fn may_contain(&self, uk: &[u8]) -> Option<bool> {
+			self.table.filter_reader.as_ref().map(|f| f.may_contain(uk, 0))
+		}
+
+		pub fn key_range_flags(&self, lo: Bound<&[u8]>, hi: Bound<&[u8]>) -> (bool, bool, bool) {
+			let r = user_range_to_internal_range(lo, hi);
+			(self.table.is_before_range(&r), self.table.is_after_range(&r), self.table.overlaps_with_range(&r))
+		}
+
+		pub fn cursor(&self, lo: Bound<&[u8]>, hi: Bound<&[u8]>) -> std::result::Result<Cur, String> {
+			let r = user_range_to_internal_range(lo, hi);
+			Ok(Cur { it: self.table.iter(Some(r)).map_err(|e| e.to_string())? })
+		}
+	}
+
+	pub struct Cur {
+		it: TableIterator<'static>,
+	}
+
+	impl Cur {
+		fn pos(&self, r: crate::Result<bool>) -> std::result::Result<Option<(Vec<u8>, u64, Vec<u8>)>, String> {
+			match r {
+				Err(e) => Err(e.to_string()),
+				Ok(v) => {
+					if v != self.it.valid() {
+						return Err(format!("return value {v} but valid() = {}", self.it.valid()));
+					}
+					if !v {
+						return Ok(None);
+					}
+					let k = self.it.key();
+					Ok(Some((
+						k.user_key().to_vec(),
+						k.seq_num(),
+						self.it.value_encoded().map_err(|e| e.to_string())?.to_vec(),
+					)))
+				}
+			}
+		}
+		pub fn seek_first(&mut self) -> std::result::Result<Option<(Vec<u8>, u64, Vec<u8>)>, String> {
+			let r = self.it.seek_first();
+			self.pos(r)
+		}
+		pub fn seek_last(&mut self) -> std::result::Result<Option<(Vec<u8>, u64, Vec<u8>)>, String> {
+			let r = self.it.seek_last();
+			self.pos(r)
+		}
+		pub fn next(&mut self) -> std::result::Result<Option<(Vec<u8>, u64, Vec<u8>)>, String> {
+			let r = self.it.next();
+			self.pos(r)
+		}
+		pub fn prev(&mut self) -> std::result::Result<Option<(Vec<u8>, u64, Vec<u8>)>, String> {
+			let r = self.it.prev();
+			self.pos(r)
+		}
+		pub fn seek(&mut self, uk: &[u8], seq: u64) -> std::result::Result<Option<(Vec<u8>, u64, Vec<u8>)>, String> {
+			let k = InternalKey::new(uk.to_vec(), seq, InternalKeyKind::Max, crate::INTERNAL_KEY_TIMESTAMP_MAX);
+			let r = self.it.seek(&k.encode());
+			self.pos(r)
+		}
+	}
+}
+
 /// Store control and observers (C01 / C06 / C07 / C10 / C14): deterministic placement of memtable
 /// rotation, flush and compaction rounds on a real `Tree`, and read-only views of its state.
 pub mod store {
